@@ -53,7 +53,9 @@ def norm_model_obs(prog: Dict[str, Any], obs: Any) -> Any:
             o["r"] = ["ok", canon_model_value(r[1])]
         elif r[0] == "err":
             o["r"] = ["err", [[c, (0 if s in hidden else s), k] for c, s, k in r[1]]]
-        o["req"] = [q for q in o.get("req", []) if q[1] not in hidden]
+        o["logreq"] = o.get("logreq", 0)
+        o["log"] = [l for l in o.get("log", []) if l[1]]
+        o["req"] = [q for q in o.get("req", []) if q[1] not in hidden and q[0] != "log"]
         o["calls"] = [[f, canon_model_value(a), canon_model_value(k)] for f, a, k in o.get("calls", [])]
         out.append(o)
     return out
@@ -67,7 +69,8 @@ def facet_views(op: Dict[str, Any], o: Dict[str, Any], side: str) -> Dict[str, A
     v: Dict[str, Any] = {f: o["r"]}
     v["trace"] = o.get("calls", [])
     v["cache"] = o.get("cache", [])
-    v["log"] = o.get("log", [])
+    logreq = o["logreq"] if "logreq" in o else len([q for q in o.get("req", []) if q[0] == "log"])
+    v["log"] = {"emitted": o.get("log", []), "requests": logreq}
     v["req"] = sorted(dumps(q) for q in o.get("req", []) if q[0] not in ("log",))
     return v
 
